@@ -352,6 +352,13 @@ impl Settings {
         })
     }
 }
+#[cfg(tackler_verif)]
+impl Settings {
+    pub(crate) fn strict_mode(&self) -> bool {
+        self.strict_mode
+    }
+}
+
 impl Settings {
     pub(crate) fn get_hash(&self) -> Option<Hash> {
         if self.audit_mode {
